@@ -98,16 +98,32 @@ def residue_search(EoN, sim, tier):
     return tried, hits
 
 
+def is_residue(hit):
+    n, rates, ranks, st, det, log = hit
+    es = [e[1] for e in log if e[0] == 'E']
+    return bool(es) and 0 < es[-1] < 1e-9 and (st == 'runaway' or (st == 'exc' and log[-1] == ('P', [])))
+
+
 def report_residue(run, tried, hits):
     if not hits: return None
-    n, rates, ranks, st, det, log = hits[0]
-    last_rate = [e[1] for e in log if e[0] == 'E'][-1]
-    what = ('%s: %d isolated nodes, all initially I, node i recovers (I->R, absorbing) at rate %r, tmax=inf: after the %d recoveries every rate is exactly 0, '
-            'but nodes_by_rate.total_weight() = %r > 0 with no item left (binary64 residue of the running +=/-= total), the loop goes on and '
-            '%s. The property requires the run to stop exactly when all rates are zero. (%d of %d rate tables / orders tried fail at this size.)'
-            % (ENTRY, n, list(rates), n, last_rate,
-               'choose_random() raises %s from random.choice([])' % det if st == 'exc' else 'never ends', len(hits), tried))
-    run.violation(RESIDUE_KEY, what, {'kind': 'float-residue', 'rates': list(rates), 'ranks': list(ranks), 'observed': [st, det], 'entry': ENTRY})
+    res = [h for h in hits if is_residue(h)]
+    other = [h for h in hits if not is_residue(h)]
+    what = None
+    if res:
+        n, rates, ranks, st, det, log = res[0]
+        last_rate = [e[1] for e in log if e[0] == 'E'][-1]
+        what = ('%s: %d isolated nodes, all initially I, node i recovers (I->R, absorbing) at rate %r, tmax=inf: after the %d recoveries every rate is exactly 0, '
+                'but nodes_by_rate.total_weight() = %r > 0 with no item left (binary64 residue of the running +=/-= total), the loop goes on and '
+                '%s. The property requires the run to stop exactly when all rates are zero. (%d of %d rate tables / orders tried fail at this size.)'
+                % (ENTRY, n, list(rates), n, last_rate,
+                   'choose_random() raises %s from random.choice([])' % det if st == 'exc' else 'never ends', len(res), tried))
+        run.violation(RESIDUE_KEY, what, {'kind': 'float-residue', 'rates': list(rates), 'ranks': list(ranks), 'observed': [st, det], 'entry': ENTRY})
+    if other:
+        n, rates, ranks, st, det, log = other[0]
+        w2 = ('%s: %d isolated nodes, all initially I, node i recovers at rate %r, tmax=inf: the run should consist of exactly %d recoveries; observed %s %r, calls to the random source %r'
+              % (ENTRY, n, list(rates), n, st, det if st != 'ok' else det[0], log[:8]))
+        run.violation('C15/%s/decimal-rates-run' % ENTRY, w2, {'kind': 'float-residue', 'rates': list(rates), 'ranks': list(ranks), 'observed': [st, str(det)], 'entry': ENTRY})
+        what = what or w2
     return what
 
 
